@@ -61,7 +61,7 @@ def load_merchant_rules(csv_path):
         return []  # No user rules file
 
     rules = []
-    with open(csv_path, 'r', encoding='utf-8') as f:
+    with open(csv_path, 'r', encoding='utf-8-sig') as f:
         # Filter out comment and empty lines before passing to DictReader
         lines = [line for line in f if line.strip() and not line.strip().startswith('#')]
         reader = csv.DictReader(lines)
@@ -392,12 +392,12 @@ def diagnose_rules(csv_path=None):
 
     # Load user rules with detailed error tracking
     try:
-        with open(csv_path, 'r', encoding='utf-8') as f:
+        with open(csv_path, 'r', encoding='utf-8-sig') as f:
             raw_content = f.read()
             result['file_size_bytes'] = len(raw_content)
             result['file_lines'] = raw_content.count('\n') + 1
 
-        with open(csv_path, 'r', encoding='utf-8') as f:
+        with open(csv_path, 'r', encoding='utf-8-sig') as f:
             lines = f.readlines()
             non_comment_lines = [line for line in lines if not line.strip().startswith('#') and line.strip()]
             result['non_comment_lines'] = len(non_comment_lines)
@@ -414,7 +414,7 @@ def diagnose_rules(csv_path=None):
                     )
 
         # Now load rules with validation
-        with open(csv_path, 'r', encoding='utf-8') as f:
+        with open(csv_path, 'r', encoding='utf-8-sig') as f:
             # Filter out comments AND empty lines
             lines = [line for line in f if line.strip() and not line.strip().startswith('#')]
             reader = csv.DictReader(lines)
